@@ -21,6 +21,10 @@ CLAIMED = {
     'C03': ('kernel', 'deterministic simulation: clock-trace invariants + deterministic backward-jump budget for termination', '5/C03'),
     'C04': ('kernel', 'deterministic simulation: per-instant snapshot invariant over the event log + metamorphic re-run under seeded permutation of every listing order', '5/C04'),
     'C05': ('steps', 'deterministic simulation: phase grammar over the event log (random flow DAGs, derivers, steps deleting/generating compartments), token visibility per dependency edge', '5/C05'),
+    'C06': ('wiring', 'deterministic simulation: generated schemas/topologies of every documented form; real store vs independent wiring resolver and state model at every event (read node == write node, frame condition)', '5/C06'),
+    'C07': ('wiring', 'deterministic simulation: states argument of every callback vs projection of the model hierarchy through the independent resolver (exact shape)', '5/C07'),
+    'C08': ('wiring', 'deterministic simulation: state refinement against model updaters folded in observed application order; update-object immutability probe', '5/C08'),
+    'C15': ('wiring', 'deterministic simulation: state right after every construction vs model initial state (explicit values, defaults, glob children); Composite.initial_state/default_state vs resolver', '5/C15'),
     'C12': ('kernel', 'deterministic simulation: recording emitter vs state snapshots and batch times; emit_step differential', '5/C12'),
 }
 
